@@ -361,6 +361,9 @@ def gen_plan(family: str, i: int, rng: random.Random, tier: str) -> dict:
                 kind = rng.choice(["drop", "drop", "trunc", "short", "stall"])
                 f = {"op": k, "dir": "d2h", "pos": rng.randrange(0, 3 + ln // 64), "kind": kind, "us": 10_000_000}
                 if kind == "short":
+                    # SDP data reports carry no length field, so a shortened data report is as undetectable for any
+                    # host as a flipped byte; only the 4-byte HAB / status words are shortened
                     f["len"] = rng.choice([0, 1, 2, 3, 4])
+                    f["pos"] = 0 if ops[k]["op"] == "read" else rng.randrange(2)
                 plan["faults"].append(f)
     return plan
